@@ -179,7 +179,7 @@ func (sc *xpScn) step(a *xpAct, o *xpObs, blocks map[int]*types.Block) {
 				go func() { sc.svc.handleTransaction(sc.kind(a.Kind), tx, sub.ch); done <- true }()
 				select {
 				case <-done:
-				case <-time.After(3 * time.Second):
+				case <-time.After(20 * time.Second):
 					o.Blocked = true
 					return
 				}
